@@ -87,14 +87,27 @@ let run (toks : string list) : string =
                 M.cf_ret = bytes_of_string ret; M.cf_notify = bytes_of_string notify; M.cf_noop = (noop <> "0") } in
     let script = if script = "-" then [] else List.map parse_decision (split_on ',' script) in
     let ms = if msgs = "-" then [] else List.mapi parse_msg (split_on ';' msgs) in
+    let strip_suffix full inner =
+      let lf = String.length full and li = String.length inner in
+      if li <= lf && String.sub full (lf - li) li = inner then Some (String.sub full 0 (lf - li)) else None in
     let renders = if derived = "-" then [||] else
         Array.of_list (List.map (fun t -> match split_on '/' t with
-            | [h; f] -> (bytes_of_hex h, f = "1") | _ -> failwith ("bad derived field " ^ t)) (split_on ';' derived)) in
+            | [h; "0"] -> (bytes_of_hex h, None)
+            | [h; "1"] -> (bytes_of_hex h, Some (M.EWrap (bytes_of_string "bodyWriter function: ", M.ELocal (bytes_of_string "producer failed"))))
+            | [h; "1"; full; inner] ->
+              let full = string_of_bytes (bytes_of_hex full) in
+              if inner = "!" then (bytes_of_hex h, Some (M.ELocal (bytes_of_string full)))
+              else begin
+                let inner = string_of_bytes (bytes_of_hex inner) in
+                match strip_suffix full inner with
+                | Some prefix -> (bytes_of_hex h, Some (M.EWrap (bytes_of_string prefix, M.ELocal (bytes_of_string inner))))
+                | None -> failwith "wrapped error text is not a suffix of the error text"
+              end
+            | _ -> failwith ("bad derived field " ^ t)) (split_on ';' derived)) in
     let render (m : M.msg) =
       let i = int_of_nat m.M.m_id in
       if i < Array.length renders then
-        let (content, failed) = renders.(i) in
-        ([content], if failed then Some (M.EWrap (bytes_of_string "bodyWriter function: ", M.ELocal (bytes_of_string "producer failed"))) else None)
+        let (content, e) = renders.(i) in ([content], e)
       else ([], Some (M.ELocal (bytes_of_string "no render result in the case line"))) in
     let o = M.run_gen cfg caps script ms render in
     let w = o.M.o_world in
@@ -111,7 +124,7 @@ let run (toks : string list) : string =
                  (List.length c.M.cm_data) (adler32 c.M.cm_data)) w.M.w_commits) in
        let d = String.concat "" (List.map (fun (r : M.mres) -> boolc r.M.r_delivered) o.M.o_results)
        and e = String.concat "" (List.map (fun (r : M.mres) -> boolc (r.M.r_err <> None)) o.M.o_results) in
-       Printf.sprintf "dial=%s C=%s D=%s E=%s" (boolc dial_ok) cs (tok d) (tok e)
+       Printf.sprintf "dial=%s C=%s D=%s E=%s P=0" (boolc dial_ok) cs (tok d) (tok e)
      | "c20" ->
        let rk, j = match o.M.o_ret with
          | M.RetNil -> "nil", 0 | M.RetDial -> "dial", 0 | M.RetConnCheck -> "conncheck", 0
